@@ -14,7 +14,8 @@ checks, na = [], []
 for p in props:
     pid = p["id"]
     path = os.path.join(HARNESS, "props", pid.lower() + ".py")
-    if not os.path.exists(path):
+    registered = [l.strip() for l in open(os.path.join(HARNESS, "registered.txt")) if l.strip()]
+    if not os.path.exists(path) or pid not in registered:
         na.append({"property_id": pid, "reason": "check not built yet in this round (planned: see DESIGN.md section 6); not claimed until its theorems and correspondence exist"})
         continue
     mod = importlib.import_module("props." + pid.lower())
